@@ -316,6 +316,10 @@ class TCPPacketGenerator(Device, OutMixIn):
         assert ack.flow_id >= 10000
 
         ackno = ack.ack
+        if ackno < self.last_ack:
+            # an outdated cumulative ACK that was overtaken on the path carries
+            # no information; in particular it must not move last_ack backwards
+            return
         if ackno == self.last_ack:
             self.dupack += 1
         else:
